@@ -224,7 +224,8 @@ func main() {
 		deadline = time.Now().Add(13 * time.Minute)
 	}
 	work := os.Getenv("VERIF_WORK")
-	if work == "" {
+	ownWork := work == ""
+	if ownWork {
 		work = filepath.Join(engine.Root(), ".work", fmt.Sprintf("c14.%d", os.Getpid()))
 	}
 	fdir := filepath.Join(work, "files")
@@ -282,6 +283,9 @@ func main() {
 	rep.Sample(Case{0, "mem+WriterAt", "example", []regionx.Op{{K: "W", X: 1, Z: 0, Size: 4093}, {K: "W", X: 0, Z: 1, Size: 1}, {K: "W", X: 1, Z: 0, Size: 1}, {K: "L"}, {K: "W", X: 0, Z: 1, Size: 8189}}, "grow/shrink/reopen/reuse"})
 	rep.Assume("chunk contents and timestamp values are not part of the state key (no branch of mca.go depends on them; both are checked on every transition); device position is not part of the key because every operation seeks absolutely first (asserted at run time); ref/refanvil is trusted and pinned to 678 vanilla-written chunks by its self-test; zero-length writes and what PadToFullSector must achieve are unspecified")
 	os.RemoveAll(fdir)
+	if ownWork {
+		os.RemoveAll(work)
+	}
 	if stopProf != nil {
 		stopProf()
 	}
